@@ -128,6 +128,10 @@ class Dispatch:
 
 
 def _call_triple(v):
+    # lambda source: F(args)(source)  -- the operator built when it is applied -- reads as F(args)
+    if isinstance(v, ast.Lambda) and len(v.args.args) == 1 and not v.args.defaults and isinstance(v.body, ast.Call) and len(v.body.args) == 1 \
+            and not v.body.keywords and isinstance(v.body.args[0], ast.Name) and v.body.args[0].id == v.args.args[0].arg and isinstance(v.body.func, ast.Call):
+        v = v.body
     if isinstance(v, ast.Call) and isinstance(v.func, ast.Call):
         inner = v.func
         return ast.unparse(inner.func), [ast.unparse(a) for a in inner.args] + [ast.unparse(k.value) for k in inner.keywords], inner
